@@ -944,3 +944,227 @@ def c01_decisions(tr, out, case):
     for p in tr.packages:
         for o in p["orders"]:
             out.rule("package-order")
+
+
+# -------------------------------------------------------------------------------------------
+# C06 passive liquidity (B3 traded ledger built from the raw file lines)
+# -------------------------------------------------------------------------------------------
+
+RESTING = {"EXECUTABLE", "CANCELLING", "UPDATING", "REPLACING"}
+
+
+def traded_deltas(snaps):
+    """per line index: {runner key: {price: positive delta of cumulative traded volume}} (first line: baseline)"""
+    out = []
+    prev = {}
+    for i, s in enumerate(snaps):
+        d = {}
+        for k, r in s["runners"].items():
+            cur = r["trd"]
+            if i > 0 and r["status"] == "ACTIVE":
+                dd = {}
+                p = prev.get(k, {})
+                for q, v in cur.items():
+                    nv = round(v - p.get(q, 0.0), 2) if q in p else v
+                    if nv > 0:
+                        dd[q] = nv
+                if dd:
+                    d[k] = dd
+            prev[k] = dict(cur)
+        out.append(d)
+    return out
+
+
+def _maxflow(demands, caps, edges):
+    """demands: list of floats (orders); caps: list of floats (prices); edges: set of (i, j).  Returns max flow."""
+    n, m = len(demands), len(caps)
+    S, T = n + m, n + m + 1
+    cap = collections.defaultdict(float)
+    adj = collections.defaultdict(set)
+
+    def add(u, v, c):
+        cap[(u, v)] += c
+        adj[u].add(v)
+        adj[v].add(u)
+
+    for i, d in enumerate(demands):
+        add(S, i, d)
+    for j, c in enumerate(caps):
+        add(n + j, T, c)
+    for i, j in edges:
+        add(i, n + j, 1e18)
+    flow = 0.0
+    while True:
+        parent = {S: None}
+        q = collections.deque([S])
+        while q and T not in parent:
+            u = q.popleft()
+            for v in adj[u]:
+                if v not in parent and cap[(u, v)] > 1e-12:
+                    parent[v] = u
+                    q.append(v)
+        if T not in parent:
+            return flow
+        b = 1e18
+        v = T
+        while parent[v] is not None:
+            b = min(b, cap[(parent[v], v)])
+            v = parent[v]
+        v = T
+        while parent[v] is not None:
+            cap[(parent[v], v)] -= b
+            cap[(v, parent[v])] += b
+            v = parent[v]
+        flow += b
+
+
+def c06_passive(tr, out, snaps_by_market, case):
+    isolation = case.get("config", {}).get("simulated_strategy_isolation", True)
+    deltas = {m: traded_deltas(s) for m, s in snaps_by_market.items()}
+    line_of = {}
+    for m, snaps in snaps_by_market.items():
+        for i, s in enumerate(snaps):
+            line_of[(m, s["pt"])] = i
+    market_ticks = collections.defaultdict(list)
+    for t, tk in enumerate(tr.ticks):
+        market_ticks[tk["market"]].append(t)
+    passive = collections.defaultdict(list)  # okey -> [(tick, size)]
+    for f in tr.fragments:
+        if f["caller"] == "_calculate_process_traded":
+            passive[f["o"]].append((f["tick"], f["frag"][2], f["frag"][1], f["limit"]))
+            out.rule("passive-fragment")
+            if abs(f["frag"][1] - f["limit"]) > 1e-9:
+                out.v("passive-fill-not-at-own-price", {}, fragment=f)
+    cancel_effect = {}
+    for e in tr.effects:
+        if e["kind"] in ("CANCEL", "REPLACE"):
+            for o in e["orders"]:
+                cancel_effect.setdefault(o, e["tick"])
+    owner = {}
+    for r in tr.requests:
+        if r["kind"] == "PLACE":
+            owner[r["o"]] = r["strategy"]
+    placed = [p for p in tr.placements if p["otype"] == "LIMIT" and p.get("resp_status") == "SUCCESS" and not p["full_match"]]
+    per_runner = collections.defaultdict(list)
+    for p in placed:
+        s0 = tr.samples[p["o"]][0] if tr.samples.get(p["o"]) else None
+        if s0 is None:
+            continue
+        per_runner[(owner.get(p["o"]) if isolation else "*", s0["market"], tuple(s0["sel"]))].append(p["o"])
+    per_tick_fill = collections.defaultdict(dict)  # (group, market, sel, tick) -> {okey: (fill, side, price)}
+    for p in placed:
+        o = p["o"]
+        ss = tr.samples.get(o)
+        if not ss or p["tif"] == "FILL_OR_KILL":
+            continue
+        m, sel = ss[0]["market"], tuple(ss[0]["sel"])
+        side, price = p["side"], p["price"]
+        rest0 = p["rem"]
+        # queue ahead of the order at its price when it arrived, from the book snapshot (not from the code's _piq):
+        # a resting BACK joins the unmatched backers shown on the available-to-lay side at that price, and vice versa
+        piq0 = next((sz for pr, sz in (p["atl"] if side == "BACK" else p["atb"]) or () if pr == price), 0.0)
+        if rest0 <= 0:
+            continue
+        group = owner.get(o) if isolation else "*"
+        lone = len(per_runner[(group, m, sel)]) == 1
+        by_tick = {}
+        for s in ss:
+            if s["phase"] == "mw":
+                by_tick[s["tick"]] = s
+        elig_sum = 0.0
+        obs = 0.0
+        nfr = 0
+        pf = passive.get(o, [])
+        exact = True
+        for t in market_ticks[m]:
+            if t < p["tick"]:
+                continue
+            if o in cancel_effect and cancel_effect[o] <= t:
+                break  # a cancel / replace took effect before this update's matching: the resting size changed
+            s = by_tick.get(t)
+            if s is None:
+                break
+            li = line_of.get((m, tr.ticks[t]["pt"]))
+            dd = deltas[m][li].get(sel, {}) if li is not None else {}
+            elig = sum(v for q, v in dd.items() if (q >= price if side == "BACK" else q <= price))
+            fills_now = [x for x in pf if x[0] == t]
+            got_now = sum(x[1] for x in fills_now)
+            # the order is matched by the middleware only while it rests; a lapse / SP conversion / void ends its life
+            ended = s["sl"] > 0 or s["sv"] > 0 or (s["status"] not in RESTING and got_now == 0)
+            sp_now = any(fr[0] == tr.ticks[t]["pt"] and abs(fr[1] - price) > 1e-9 for fr in s["frags"][-1:]) and s["persistence"] == "MARKET_ON_CLOSE"
+            if ended or sp_now:
+                if got_now:
+                    exact = False
+                else:
+                    break
+            elig_sum += elig
+            obs += got_now
+            nfr += len(fills_now)
+            out.rule("order-update")
+            cap_q = max(0.0, elig_sum / 2.0 - piq0)
+            tol = 0.01 * (nfr + 1)
+            tags = {"side": side, "lone": lone, "isolation": isolation}
+            if obs > cap_q + tol:
+                out.v("fill-exceeds-eligible-volume-after-queue", tags, order=o, observed=obs, bound=cap_q, eligible=elig_sum, piq=piq0, tick=t, placement=_pl(p))
+                break
+            if obs > rest0 + tol:
+                out.v("fill-exceeds-resting-size", tags, order=o, observed=obs, rest=rest0, tick=t)
+                break
+            if lone and exact:
+                out.rule("lone-equality")
+                exp = min(rest0, cap_q)
+                if abs(obs - exp) > tol:
+                    out.v("lone-order-fill-differs-from-formula", tags, order=o, observed=obs, expected=exp, eligible=elig_sum, piq=piq0, rest=rest0, tick=t, placement=_pl(p))
+                    break
+            if got_now:
+                per_tick_fill[(group, m, sel, t)][o] = (got_now, side, price, ss, p)
+            if ended:
+                break
+        out.d("c06:%s:%s:%s:%s:%s" % (side, lone, piq0 > 0, obs > 0, min(nfr, 3)))
+    # aggregate feasibility per update, and priority where unambiguous
+    for (group, m, sel, t), fills in per_tick_fill.items():
+        li = line_of.get((m, tr.ticks[t]["pt"]))
+        dd = deltas[m][li].get(sel, {}) if li is not None else {}
+        prices = sorted(dd)
+        okeys = list(fills)
+        demands = [fills[o][0] for o in okeys]
+        caps = [dd[q] / 2.0 for q in prices]
+        edges = {(i, j) for i, o in enumerate(okeys) for j, q in enumerate(prices) if (q >= fills[o][2] if fills[o][1] == "BACK" else q <= fills[o][2])}
+        out.rule("aggregate")
+        flow = _maxflow(demands, caps, edges)
+        if flow < sum(demands) - 0.01 * (len(okeys) + 1):
+            out.v("update-fills-exceed-eligible-traded-volume", {"isolation": isolation, "orders": min(len(okeys), 4)}, fills={o: fills[o][:3] for o in okeys}, deltas=dd, flow=flow, tick=t)
+        out.d("c06agg:%d:%d:%s" % (min(len(okeys), 4), min(len(prices), 3), isolation))
+        # priority, in the unambiguous form: one traded price, same side, both queues exhausted before the update:
+        # if the worse-priced order got anything, the better-priced one was served first in full (up to V/2)
+        if len(prices) == 1 and len(okeys) >= 1:
+            V = dd[prices[0]]
+            group_orders = per_runner[(group, m, sel)]
+            cands = []
+            for o2 in group_orders:
+                ss2 = tr.samples.get(o2) or []
+                before = [x for x in ss2 if x["tick"] < t]
+                if not before or o2 in cancel_effect and cancel_effect[o2] <= t:
+                    continue
+                b4 = before[-1]
+                if b4["status"] not in RESTING or b4["srem"] <= 0:
+                    continue
+                cands.append((o2, b4))
+            sides = {c[1]["side"] for c in cands}
+            if len(sides) == 1 and len(cands) >= 2 and all(c[1]["piq"] == 0 for c in cands):
+                side = sides.pop()
+                elig_c = [c for c in cands if (prices[0] >= c[1]["price"] if side == "BACK" else prices[0] <= c[1]["price"])]
+                for a in elig_c:
+                    for b_ in elig_c:
+                        better = a[1]["price"] < b_[1]["price"] if side == "BACK" else a[1]["price"] > b_[1]["price"]
+                        if not better:
+                            continue
+                        out.rule("priority")
+                        fa = fills.get(a[0], (0.0,))[0]
+                        fb = fills.get(b_[0], (0.0,))[0]
+                        if fb > 0.011 and fa < min(a[1]["srem"], V / 2.0) - 0.011:
+                            out.v("worse-priced-order-served-before-better", {"side": side, "isolation": isolation}, better=a[0], worse=b_[0], fill_better=fa, fill_worse=fb, rem_better=a[1]["srem"], traded=V, tick=t)
+
+
+def _pl(p):
+    return {k: p.get(k) for k in ("o", "tick", "side", "price", "size", "rem", "piq", "atb", "atl", "frags")}
